@@ -1861,3 +1861,26 @@ def replay_colour_string(model, obligation, spell):
         except Exception as ex:
             probs.append('save(kind=%r, dark=%r) raised %r' % (kind, spell, ex))
     return dict(confirmed=bool(probs), call='segno.make("C14", micro=False).save(<stream>, kind=..., dark=%r)' % spell, detail='; '.join(probs[:3]) or 'handled as specified')
+
+
+def replay_raster_kind(model, obligation, kind):
+    """native: the raster writer of `kind` on real symbols for scales 1..16 (incl. the multiples of 8) and several borders, read back by the independent reader"""
+    import io
+    from . import readers_raster as RR
+    for content, kw in (('1', dict(micro=True)), ('Hello', dict(micro=False)), ('x' * 30, dict(version=3))):
+        qr = segno.make(content, **kw)
+        size = len(qr.matrix)
+        for scale in (1, 2, 3, 5, 7, 8, 9, 16):
+            for border in (None, 0, 1, 3):
+                out = io.StringIO() if kind in ('xbm', 'xpm') else io.BytesIO()
+                call = 'segno.make(%r, **%r).save(<stream>, kind=%r, scale=%r, border=%r)' % (content, kw, kind, scale, border)
+                try:
+                    qr.save(out, kind=kind, scale=scale, border=border)
+                    r = getattr(RR, 'read_' + kind)(out.getvalue())
+                    b = border if border is not None else (2 if qr.is_micro else 4)
+                    probs = [p for p in RR.check_modules([list(x) for x in qr.matrix], r, scale, b, (0, 0, 0, 255), (255, 255, 255, 255)) if 'requires MAXVAL' not in p]
+                except Exception as ex:
+                    probs = ['raised %r' % (ex,)]
+                if probs:
+                    return dict(confirmed=True, call=call, detail='; '.join(probs[:3]))
+    return dict(confirmed=False, detail='%s files of the tried symbols / scales / borders depict the symbols' % kind)
